@@ -530,3 +530,387 @@ Proof.
   - repeat split; simpl; auto.
     intros p Hp. inversion Hp; subst p. apply satisfies_sat; assumption.
 Qed.
+
+(* ---- what the data offers (C20, first sentence) -------------------------------------------- *)
+
+Lemma root_ok : forall sch facts d, has_schema sch d -> satisfies facts d = true -> ok_val sch facts (root_sty sch) d.
+Proof.
+  intros sch facts d [Hw Ht] Hs. repeat split; simpl; auto.
+  intros p Hp. inversion Hp; subst p. apply satisfies_sat; assumption.
+Qed.
+
+Theorem data_offers : forall sch, offers sch = true ->
+  (forall f t, In (f, t) documented_fields ->
+     forall d, has_schema sch d -> exists x, eval_chain0 sch d [f] = Ok x /\ type_of x = t /\ wt sch x = true) /\
+  (forall h, In h documented_helpers ->
+     exists fn sg, assoc h (sch_funcs sch) = Some sg /\ helper_of h = Some fn /\
+                   fsig_eqb sg (helper_sig fn) = true /\ resolve_fn sch h = Some fn).
+Proof.
+  intros sch H. unfold offers in H. apply andb_prop in H. destruct H as [Hr Hh]. split.
+  - intros f t Hin d Hd. unfold root_offers in Hr. rewrite forallb_forall in Hr. specialize (Hr _ Hin). simpl in Hr.
+    destruct (ty_field sch [] (root_sty sch) f []) as [st|] eqn:E; [|discriminate].
+    assert (Hc : ty_chain0 sch [] (root_sty sch) [f] = Some st) by (simpl; rewrite E; reflexivity).
+    destruct (chain0_sound sch [] [f] (root_sty sch) d st Hc (root_ok sch [] d Hd eq_refl)) as [x [Hx [Hw [Ht _]]]].
+    exists x. repeat split; auto. rewrite Ht. apply ty_eqb_eq in Hr. exact Hr.
+  - intros h Hin. unfold helpers_offered in Hh. rewrite forallb_forall in Hh. specialize (Hh _ Hin).
+    destruct (resolve_fn sch h) as [f|] eqn:Er; [|discriminate].
+    destruct (helper_of h) as [g|] eqn:Eg; [|discriminate].
+    unfold resolve_fn in Er. destruct (assoc h (sch_funcs sch)) as [sg|] eqn:Ea.
+    + rewrite Eg in Er. destruct (fsig_eqb sg (helper_sig g)) eqn:Es; [|discriminate].
+      inversion Er; subst f. exists g, sg. repeat split; auto.
+    + apply andb_prop in Hh. destruct Hh as [_ Hh]. discriminate.
+Qed.
+
+(* ---- values built against a schema ---------------------------------------------------------- *)
+
+Lemma kbuild_ok : forall sch k t v, kbuild sch k t = Some v ->
+  (forall u, k = KVal u -> wt sch u = true) -> wt sch v = true /\ type_of v = t.
+Proof.
+  intros sch k t v H Hk. destruct k; simpl in H.
+  - destruct (ty_eqb t TStr) eqn:E; [|discriminate]. apply ty_eqb_eq in E. inversion H; subst. auto.
+  - destruct (is_int_ty sch t) eqn:E; [|discriminate]. inversion H; subst. simpl.
+    destruct t; try discriminate; auto.
+  - destruct (ty_eqb t TFloat) eqn:E; [|discriminate]. apply ty_eqb_eq in E. inversion H; subst. auto.
+  - destruct (ty_eqb (type_of v0) t) eqn:E; [|discriminate]. apply ty_eqb_eq in E. inversion H; subst. auto.
+Qed.
+
+Lemma kind_ok_build : forall sch k t, kind_ok sch (kind_of k) t = true -> exists v, kbuild sch k t = Some v.
+Proof. intros sch k t H. destruct k; simpl in *; rewrite H; eauto. Qed.
+
+Definition kinds_of (known : list (string * kval)) : list (string * kkind) :=
+  map (fun p => (fst p, kind_of (snd p))) known.
+
+Lemma assoc_kinds : forall n known,
+  assoc n (kinds_of known) = match assoc n known with Some k => Some (kind_of k) | None => None end.
+Proof.
+  induction known as [|[n' k] r IH]; simpl; [reflexivity|].
+  destruct (String.eqb n n'); [reflexivity|exact IH].
+Qed.
+
+Lemma build_fields_ok : forall sch known fds,
+  (forall n u, assoc n known = Some (KVal u) -> wt sch u = true) ->
+  forallb (fun nt => match assoc (fst nt) (kinds_of known) with
+                     | Some kk => kind_ok sch kk (snd nt)
+                     | None => scalar_zero sch (snd nt)
+                     end) fds = true ->
+  fields_ok (wt sch) (map (build_field sch known) fds) fds = true.
+Proof.
+  intros sch known fds Hk. induction fds as [|[n t] r IH]; simpl; intros H; [reflexivity|].
+  apply andb_prop in H. destruct H as [H1 H2]. rewrite String.eqb_refl. simpl.
+  rewrite assoc_kinds in H1. rewrite (IH H2), andb_true_r.
+  destruct (assoc n known) as [k|] eqn:Ea.
+  - destruct (kind_ok_build _ _ _ H1) as [v Hv]. rewrite Hv.
+    destruct (kbuild_ok _ _ _ _ Hv) as [Hw Ht].
+    { intros u ->. eapply Hk; eauto. }
+    rewrite Ht, ty_eqb_refl, Hw. reflexivity.
+  - unfold scalar_zero in H1. destruct (zero_of sch t) as [z|] eqn:Ez; [|discriminate].
+    destruct (zero_of_ok _ _ _ Ez) as [Hw Ht]. rewrite Ht, ty_eqb_refl, Hw. reflexivity.
+Qed.
+
+Lemma build_struct_wt : forall sch tn known,
+  struct_ok sch tn (kinds_of known) = true ->
+  (forall n u, assoc n known = Some (KVal u) -> wt sch u = true) ->
+  wt sch (build_struct sch tn known) = true.
+Proof.
+  unfold struct_ok, build_struct, fields_of. intros sch tn known H Hk. simpl.
+  destruct (tentry_of sch tn) as [[[fds| |] ms]|]; try discriminate.
+  apply build_fields_ok; assumption.
+Qed.
+
+Lemma assoc_build : forall sch known f fds,
+  assoc f (map (build_field sch known) fds) =
+  match assoc f fds with Some t => Some (snd (build_field sch known (f, t))) | None => None end.
+Proof.
+  induction fds as [|[n t] r IH]; simpl; [reflexivity|].
+  destruct (String.eqb f n) eqn:E; [|exact IH]. apply String.eqb_eq in E. subst. reflexivity.
+Qed.
+
+Lemma nonnil_scalar : forall r v,
+  match v with VNil _ | VPtr _ | VStruct _ _ | VSlice _ _ => False | _ => True end -> nonnil_at r v = true.
+Proof. intros [|[] r] v H; destruct v; simpl in *; try contradiction; reflexivity. Qed.
+
+(* a fact below a known field of a built struct holds if it holds of the value supplied for that field *)
+Lemma nonnil_build : forall sch tn known f r k,
+  assoc f known = Some k ->
+  (forall v, k = KVal v -> nonnil_at r v = true) ->
+  nonnil_at (PField f :: r) (build_struct sch tn known) = true.
+Proof.
+  intros sch tn known f r k Ha Hv. unfold build_struct. simpl. rewrite assoc_build.
+  destruct (assoc f (fields_of sch tn)) as [t|]; [|reflexivity].
+  unfold build_field. simpl. rewrite Ha.
+  destruct (kbuild sch k t) as [v|] eqn:Eb; [|apply nonnil_scalar; exact I].
+  destruct k; simpl in Eb.
+  - destruct (ty_eqb t TStr); inversion Eb; subst. apply nonnil_scalar. exact I.
+  - destruct (is_int_ty sch t); inversion Eb; subst. apply nonnil_scalar. exact I.
+  - destruct (ty_eqb t TFloat); inversion Eb; subst. apply nonnil_scalar. exact I.
+  - destruct (ty_eqb (type_of v0) t); inversion Eb; subst. apply Hv. reflexivity.
+Qed.
+
+(* ---- the data a notifier hands to executeTemplate, built from the evaluator's reply ---------- *)
+(* coordinator.go:374-379 sends an EvaluatorRequest without ShowAll, so the reply is the problems-only view
+   (Eval.filter_view) of evaluateConsumerStatus' result (Eval.eval_group); Notify passes it on unchanged, for
+   open and for close notifications (coordinator.go:553-572), and executeTemplate wraps it (helpers.go:27-48). *)
+From Burrow Require F32 Eval EvalGroupProofs.
+
+Definition f32_finite (c : F32.f32) : bool := Flocq.IEEE754.Binary.is_finite 24 128 c.
+
+Section EvalData.
+  Variable sch : schema.
+  Variable nm : Z -> string.     (* Eval.v interns topic / owner / client names as integers *)
+
+  Definition lag_val (l : option Z) : value :=
+    match l with
+    | None => VNil (TNamed "Lag")
+    | Some z => VPtr (build_struct sch "Lag" [("Value", KInt z)])
+    end.
+
+  Definition offset_known (c : Eval.coff) : list (string * kval) :=
+    [("Offset", KInt (Eval.co_offset c)); ("Order", KInt (Eval.co_order c));
+     ("Timestamp", KInt (Eval.co_ts c)); ("Lag", KVal (lag_val (Eval.co_lag c)))].
+
+  Definition offset_val (o : option Eval.coff) : value :=
+    match o with
+    | None => VNil (TNamed "ConsumerOffset")
+    | Some c => VPtr (build_struct sch "ConsumerOffset" (offset_known c))
+    end.
+
+  Definition part_known (p : Eval.pstatus) : list (string * kval) :=
+    [("Topic", KStr (nm (Eval.ps_topic p))); ("Partition", KInt (Eval.ps_partition p));
+     ("Owner", KStr (nm (Eval.ps_owner p))); ("ClientID", KStr (nm (Eval.ps_client p)));
+     ("Status", KInt (Eval.status_num (Eval.ps_status p)));
+     ("Start", KVal (offset_val (Eval.ps_start p))); ("End", KVal (offset_val (Eval.ps_end p)));
+     ("CurrentLag", KInt (Eval.ps_lag p)); ("Complete", KFloat (f32_finite (Eval.ps_complete p)))].
+
+  Definition part_val (p : Eval.pstatus) : value := VPtr (build_struct sch "PartitionStatus" (part_known p)).
+
+  Definition t_partp : ty := TPtr (TNamed "PartitionStatus").
+
+  Definition group_known (cluster group : string) (g : Eval.gstatus) : list (string * kval) :=
+    [("Cluster", KStr cluster); ("Group", KStr group);
+     ("Status", KInt (Eval.status_num (Eval.gs_status g)));
+     ("Complete", KFloat (f32_finite (Eval.gs_complete g)));
+     ("Partitions", KVal (VSlice t_partp (map part_val (Eval.gs_partitions g))));
+     ("TotalPartitions", KInt (Eval.gs_total_partitions g));
+     ("Maxlag", KVal (match Eval.gs_maxlag g with Some p => part_val p | None => VNil (TNamed "PartitionStatus") end));
+     ("TotalLag", KInt (Eval.gs_totallag g))].
+
+  Definition group_val cluster group g : value := build_struct sch "ConsumerGroupStatus" (group_known cluster group g).
+
+  Definition data_known (cluster group id : string) (extras : list (string * string)) (g : Eval.gstatus)
+    : list (string * kval) :=
+    [("Cluster", KStr cluster); ("Group", KStr group); ("ID", KStr id);
+     ("Start", KVal (VOpaque "time.Time"));
+     ("Extras", KVal (VMap TStr (map (fun kv => (fst kv, VStr (snd kv))) extras)));
+     ("Result", KVal (group_val cluster group g))].
+
+  (* the anonymous struct of executeTemplate *)
+  Definition data_of cluster group id extras g : value :=
+    build_struct sch (sch_root sch) (data_known cluster group id extras g).
+
+  (* the kinds of those field values do not depend on the status *)
+  Definition lag_kinds : list (string * kkind) := [("Value", KKInt)].
+  Definition offset_kinds : list (string * kkind) :=
+    [("Offset", KKInt); ("Order", KKInt); ("Timestamp", KKInt); ("Lag", KKTy (TPtr (TNamed "Lag")))].
+  Definition part_kinds : list (string * kkind) :=
+    [("Topic", KKStr); ("Partition", KKInt); ("Owner", KKStr); ("ClientID", KKStr); ("Status", KKInt);
+     ("Start", KKTy (TPtr (TNamed "ConsumerOffset"))); ("End", KKTy (TPtr (TNamed "ConsumerOffset")));
+     ("CurrentLag", KKInt); ("Complete", KKFloat)].
+  Definition group_kinds : list (string * kkind) :=
+    [("Cluster", KKStr); ("Group", KKStr); ("Status", KKInt); ("Complete", KKFloat);
+     ("Partitions", KKTy (TSlice t_partp)); ("TotalPartitions", KKInt); ("Maxlag", KKTy t_partp); ("TotalLag", KKInt)].
+  Definition data_kinds : list (string * kkind) :=
+    [("Cluster", KKStr); ("Group", KKStr); ("ID", KKStr); ("Start", KKTy (TNamed "time.Time"));
+     ("Extras", KKTy (TMap TStr)); ("Result", KKTy (TNamed "ConsumerGroupStatus"))].
+
+  (* per-run obligation on the regenerated schema: the Go structs can hold what the evaluator produces *)
+  Definition embed_ok : bool :=
+    struct_ok sch "Lag" lag_kinds && struct_ok sch "ConsumerOffset" offset_kinds &&
+    struct_ok sch "PartitionStatus" part_kinds && struct_ok sch "ConsumerGroupStatus" group_kinds &&
+    struct_ok sch (sch_root sch) data_kinds &&
+    match tentry_of sch "time.Time" with Some (mkTentry DOpaque _) => true | _ => false end.
+
+  Lemma lag_kinds_eq : forall z, kinds_of [("Value", KInt z)] = lag_kinds.
+  Proof. reflexivity. Qed.
+  Lemma offset_kinds_eq : forall c, kinds_of (offset_known c) = offset_kinds.
+  Proof. intros c. unfold offset_known, kinds_of, lag_val. simpl. destruct (Eval.co_lag c); reflexivity. Qed.
+  Lemma part_kinds_eq : forall p, kinds_of (part_known p) = part_kinds.
+  Proof.
+    intros p. unfold part_known, kinds_of, offset_val. simpl.
+    destruct (Eval.ps_start p), (Eval.ps_end p); reflexivity.
+  Qed.
+  Lemma group_kinds_eq : forall cl gr g, kinds_of (group_known cl gr g) = group_kinds.
+  Proof. intros cl gr g. unfold group_known, kinds_of, part_val. simpl. destruct (Eval.gs_maxlag g); reflexivity. Qed.
+  Lemma data_kinds_eq : forall cl gr id ex g, kinds_of (data_known cl gr id ex g) = data_kinds.
+  Proof. reflexivity. Qed.
+
+  Hypothesis Hok : embed_ok = true.
+
+  Lemma embed_parts : struct_ok sch "Lag" lag_kinds = true /\ struct_ok sch "ConsumerOffset" offset_kinds = true /\
+    struct_ok sch "PartitionStatus" part_kinds = true /\ struct_ok sch "ConsumerGroupStatus" group_kinds = true /\
+    struct_ok sch (sch_root sch) data_kinds = true /\
+    wt sch (VOpaque "time.Time") = true.
+  Proof.
+    pose proof Hok as H0. unfold embed_ok in H0.
+    destruct (tentry_of sch "time.Time") as [[[] ?]|] eqn:Et; try (rewrite !andb_false_r in H0; discriminate).
+    repeat (apply andb_prop in H0; destruct H0 as [H0 ?]).
+    repeat split; auto. simpl. rewrite Et. reflexivity.
+  Qed.
+
+  (* known-value lists are short: look a KVal up by cases *)
+  Ltac kval_cases H :=
+    simpl in H;
+    repeat match type of H with
+           | (if ?b then _ else _) = _ => destruct b; [try discriminate; inversion H; subst; clear H|]
+           end; try discriminate.
+
+  Lemma lag_wt : forall l, wt sch (lag_val l) = true.
+  Proof.
+    destruct embed_parts as [H1 _]. intros [z|]; [|reflexivity]. simpl.
+    apply build_struct_wt; [rewrite lag_kinds_eq; exact H1|].
+    intros n u H. kval_cases H.
+  Qed.
+
+  Lemma offset_wt : forall o, wt sch (offset_val o) = true.
+  Proof.
+    destruct embed_parts as [_ [H2 _]]. intros [c|]; [|reflexivity]. simpl.
+    apply build_struct_wt; [rewrite offset_kinds_eq; exact H2|].
+    intros n u H. kval_cases H. apply lag_wt.
+  Qed.
+
+  Lemma part_wt : forall p, wt sch (part_val p) = true.
+  Proof.
+    destruct embed_parts as [_ [_ [H3 _]]]. intros p. simpl.
+    apply build_struct_wt; [rewrite part_kinds_eq; exact H3|].
+    intros n u H. kval_cases H; apply offset_wt.
+  Qed.
+
+  Lemma group_wt : forall cl gr g, wt sch (group_val cl gr g) = true.
+  Proof.
+    destruct embed_parts as [_ [_ [_ [H4 _]]]]. intros cl gr g.
+    apply build_struct_wt; [rewrite group_kinds_eq; exact H4|].
+    intros n u H. kval_cases H.
+    - simpl. apply forallb_forall. intros x Hx. apply in_map_iff in Hx. destruct Hx as [p [<- _]].
+      rewrite part_wt. reflexivity.
+    - destruct (Eval.gs_maxlag g); [apply part_wt|reflexivity].
+  Qed.
+
+  Theorem data_has_schema : forall cl gr id ex g, has_schema sch (data_of cl gr id ex g).
+  Proof.
+    destruct embed_parts as [_ [_ [_ [_ [H5 H6]]]]]. intros cl gr id ex g. split; [|reflexivity].
+    apply build_struct_wt; [rewrite data_kinds_eq; exact H5|].
+    intros n u H. kval_cases H.
+    - apply H6.
+    - simpl. apply forallb_forall. intros x Hx. apply in_map_iff in Hx. destruct Hx as [kv [<- _]]. reflexivity.
+    - apply group_wt.
+  Qed.
+End EvalData.
+
+(* every partition the evaluator reports as worse than OK went through the branch that sets Start and End *)
+Lemma all_some_ends : forall (o : option Eval.coff) r l,
+  Eval.all_some (o :: r) = Some l -> o <> None /\ last (o :: r) o <> None.
+Proof.
+  intros o r. revert o. induction r as [|x r IH]; intros o l H.
+  - simpl in H. destruct o; [|discriminate]. split; discriminate.
+  - assert (Ho : o <> None) by (simpl in H; destruct o; [discriminate|discriminate]).
+    split; [exact Ho|].
+    simpl in H. destruct o as [c|]; [|discriminate].
+    destruct x as [cx|]; [|discriminate].
+    change (last (Some c :: Some cx :: r) (Some c)) with (last (Some cx :: r) (Some c)).
+    destruct (Eval.all_some r) as [lr|] eqn:Er; [|discriminate].
+    assert (Hx : Eval.all_some (Some cx :: r) = Some (cx :: lr)) by (simpl; rewrite Er; reflexivity).
+    destruct (IH (Some cx) _ Hx) as [_ Hl].
+    assert (Hd : forall d1 d2 : option Eval.coff, last (Some cx :: r) d1 = last (Some cx :: r) d2).
+    { clear. generalize (Some cx). induction r as [|y r IHr]; intros z d1 d2; [reflexivity|].
+      change (last (z :: y :: r) d1) with (last (y :: r) d1). change (last (z :: y :: r) d2) with (last (y :: r) d2).
+      apply IHr. }
+    rewrite (Hd (Some c) (Some cx)). exact Hl.
+Qed.
+
+Lemma eval_partition_problem_has_ends : forall p minimum allowed now s st en c,
+  Eval.eval_partition p minimum allowed now = Eval.Ok (s, st, en, c) ->
+  Eval.worse s Eval.StOK = true -> st <> None /\ en <> None.
+Proof.
+  unfold Eval.eval_partition. intros p minimum allowed now s st en c.
+  destruct (Datatypes.length (Eval.cp_offsets p)); [intros H; injection H as <- _ _ _; discriminate|].
+  destruct (skipn _ _) as [|o r]; [intros H; injection H as <- _ _ _; discriminate|].
+  destruct (F32.f32_ge _ _); [|intros H; injection H as <- _ _ _; discriminate].
+  unfold Eval.calc_status. destruct (_ <=? _)%Z; [intros H; injection H as <- _ _ _; discriminate|].
+  destruct (Eval.all_some (o :: r)) as [l|] eqn:E; [|discriminate].
+  intros H _. injection H as _ <- <- _. eapply all_some_ends; eauto.
+Qed.
+
+Lemma eval_parts_ends : forall t i ps minimum allowed now l,
+  Eval.eval_parts t i ps minimum allowed now = Eval.Ok l ->
+  Forall (fun s => Eval.worse (Eval.ps_status s) Eval.StOK = true -> Eval.ps_start s <> None /\ Eval.ps_end s <> None) l.
+Proof.
+  intros t i ps minimum allowed now l H.
+  destruct (EvalGroupProofs.eval_parts_props _ _ _ _ _ _ _ H) as (_ & _ & _ & H4).
+  clear H. induction H4 as [|p s ps' l' (st & en & c & Hev & Hst & Hen & _) _ IH]; constructor; [|exact IH].
+  intros Hw. subst. eapply eval_partition_problem_has_ends; eauto.
+Qed.
+
+Lemma eval_topics_ends : forall ts minimum allowed now l,
+  Eval.eval_topics ts minimum allowed now = Eval.Ok l ->
+  Forall (fun s => Eval.worse (Eval.ps_status s) Eval.StOK = true -> Eval.ps_start s <> None /\ Eval.ps_end s <> None) l.
+Proof.
+  induction ts as [|[t ps] r IH]; intros minimum allowed now l; cbn [Eval.eval_topics].
+  - intros H; injection H as <-. constructor.
+  - destruct (Eval.eval_parts t 0 ps minimum allowed now) as [l1|] eqn:E1; [|discriminate].
+    destruct (Eval.eval_topics r minimum allowed now) as [l2|] eqn:E2; [|discriminate].
+    intros H; injection H as <-. apply Forall_app. split; [eapply eval_parts_ends; eauto|eapply IH; eauto].
+Qed.
+
+(* what the notifier receives: every listed partition carries its first and last commit *)
+Theorem listed_partitions_have_ends : forall ts minimum allowed now g,
+  Eval.eval_group ts minimum allowed now = Eval.Ok g ->
+  Forall (fun s => Eval.ps_start s <> None /\ Eval.ps_end s <> None) (Eval.gs_partitions (Eval.filter_view g)).
+Proof.
+  intros ts minimum allowed now g H.
+  destruct (EvalGroupProofs.eval_group_spec _ _ _ _ _ H) as [parts [Hp [Hg _]]].
+  pose proof (eval_topics_ends _ _ _ _ _ Hp) as Hall. simpl. rewrite Hg.
+  apply Forall_forall. intros s Hs. apply filter_In in Hs. destruct Hs as [Hin Hw].
+  rewrite Forall_forall in Hall. apply Hall; assumption.
+Qed.
+
+Lemma nonnil_ptr : forall r v, nonnil_at (PField r :: nil) (VPtr v) = nonnil_at (PField r :: nil) v.
+Proof. intros r v. destruct v; reflexivity. Qed.
+
+(* facts_hold: the non-nil facts the typechecker uses hold of the data built from every evaluator reply *)
+Theorem facts_hold : forall ts minimum allowed now g,
+  Eval.eval_group ts minimum allowed now = Eval.Ok g ->
+  forall sch nm cl gr id ex,
+    satisfies burrow_facts (data_of sch nm cl gr id ex (Eval.filter_view g)) = true.
+Proof.
+  intros ts minimum allowed now g H sch nm cl gr id ex.
+  pose proof (listed_partitions_have_ends _ _ _ _ _ H) as Hends.
+  set (fv := Eval.filter_view g) in *.
+  assert (Hgen : forall tail, (forall p, In p (Eval.gs_partitions fv) -> nonnil_at tail (part_val sch nm p) = true) ->
+            nonnil_at (p_parts ++ tail) (data_of sch nm cl gr id ex fv) = true).
+  { intros tail Ht. unfold p_parts, data_of. cbn [app].
+    eapply nonnil_build; [reflexivity|]. intros v Hv. inversion Hv; subst v. clear Hv.
+    unfold group_val. eapply nonnil_build; [reflexivity|]. intros v Hv. inversion Hv; subst v. clear Hv.
+    simpl. apply forallb_forall. intros x Hx. apply in_map_iff in Hx. destruct Hx as [p [<- Hp]]. auto. }
+  unfold satisfies, burrow_facts. cbn [forallb]. rewrite Forall_forall in Hends.
+  rewrite <- (app_nil_r p_parts) at 1.
+  rewrite !Hgen; [reflexivity| | |].
+  - intros p Hp. destruct (Hends p Hp) as [_ He]. unfold part_val. rewrite nonnil_ptr.
+    eapply nonnil_build; [reflexivity|]. intros v Hv. inversion Hv; subst v.
+    destruct (Eval.ps_end p); [reflexivity|contradiction].
+  - intros p Hp. destruct (Hends p Hp) as [Hs _]. unfold part_val. rewrite nonnil_ptr.
+    eapply nonnil_build; [reflexivity|]. intros v Hv. inversion Hv; subst v.
+    destruct (Eval.ps_start p); [reflexivity|contradiction].
+  - intros p Hp. reflexivity.
+Qed.
+
+(* C20, second clause, end to end: a template accepted by the typechecker renders without error for every
+   status the evaluator can hand to a notifier (open and close notifications carry the same kind of reply) *)
+Theorem renders_every_status : forall sch t,
+  embed_ok sch = true -> typecheck sch t burrow_facts = true ->
+  forall ts minimum allowed now g, Eval.eval_group ts minimum allowed now = Eval.Ok g ->
+  forall nm cl gr id ex, exists out, exec sch t (data_of sch nm cl gr id ex (Eval.filter_view g)) = Ok out.
+Proof.
+  intros sch t He Ht ts minimum allowed now g Hg nm cl gr id ex.
+  eapply typecheck_sound; eauto.
+  - apply data_has_schema; assumption.
+  - eapply facts_hold; eauto.
+Qed.
